@@ -11,6 +11,9 @@ import (
 )
 
 func init() {
+	register(&Rule{ID: "C14.6", Prop: "C14", Min: 4,
+		Text: "safe publication of sessions: after a session has been handed to the index (SessionHub.set) or its read loop started, the publishing function performs no plain (non-atomic, unlocked) store to a field of that session - a field written after publication (e.g. the redial function) races with the readers the index hands the session to",
+		Run:  runC14_6})
 	register(&Rule{ID: "C14.1", Prop: "C14", Min: 12,
 		Text: "atomic consistency: a struct field of shipped code that is accessed through sync/atomic anywhere is accessed that way everywhere (constructors before publication exempt); the frozen atomic-only set session.{status,seq,didCloseNotify}, socket.curState, connLimiter.{lim,now,tmp}, qpsLimiter.{tokens,limit,once} is covered",
 		Run:  runC14_1})
@@ -366,3 +369,58 @@ func runC14_5(c *Ctx) {
 
 var _ = strings.Contains
 var _ = token.ADD
+
+func runC14_6(c *Ctx) {
+	p := c.P
+	set := p.MethodObj(Root, "SessionHub", "set")
+	loop := p.Fn(Root, "session", "startReadAndHandle")
+	anyway := p.FuncObj(Root, "AnywayGo")
+	sessN := p.Named(Root, "session")
+	n := 0
+	for _, fn := range p.ShippedFuncs() {
+		if fn.Pkg == nil || fn.Pkg.Pkg.Path() != Root {
+			continue
+		}
+		idx := map[string]int{}
+		for _, call := range AllCalls(fn) {
+			what := ""
+			if CalleeObj(call) == set {
+				what = "index insert"
+			} else if CalleeObj(call) == anyway && len(call.Common().Args) == 1 {
+				// AnywayGo(sess.startReadAndHandle): bound method closure
+				if mc, ok := call.Common().Args[0].(*ssa.MakeClosure); ok {
+					if f, isF := mc.Fn.(*ssa.Function); isF && (f == loop || strings.HasPrefix(f.Name(), "startReadAndHandle$bound")) {
+						what = "read loop start"
+					}
+				}
+			}
+			if what == "" {
+				continue
+			}
+			n++
+			key := what + " in " + FnName(fn)
+			idx[key]++
+			if idx[key] > 1 {
+				key = fmt.Sprintf("%s#%d", key, idx[key])
+			}
+			late := p.ReachableFrom(call, func(i ssa.Instruction) bool {
+				st, ok := i.(*ssa.Store)
+				if !ok {
+					return false
+				}
+				fr, _, isF := FieldOfAddr(st.Addr)
+				return isF && fr.Struct == sessN
+			}, nil, nil)
+			c.fact("path-search")
+			if len(late) == 0 {
+				c.Hold(key, p.InstrPos(call), "no plain store to a session field follows the publication in this function")
+			} else {
+				fr, _, _ := FieldOfAddr(late[0].(*ssa.Store).Addr)
+				c.Viol(key, p.InstrPos(call), fmt.Sprintf("session.%s is written (plain store at %s) after the session was published: a goroutine that obtained the session from the index (GetSession/RangeSession) or the read loop reads the field concurrently without any ordering", fr.String(), p.InstrPos(late[0])))
+			}
+		}
+	}
+	if n < 4 {
+		c.Undec("publication sites", "", fmt.Sprintf("found %d, expected >= 4", n))
+	}
+}
